@@ -45,9 +45,11 @@ impl<'a> Iterator for TokenIterator<'a> {
                     integer.push(self.0.next().unwrap())
                 }
                 // A count that does not fit is not a formula rink can represent.
+                // A count of zero or one written with leading zeros (`O0`,
+                // `H02`) is not a formula anyone writes.
                 match u32::from_str(&integer) {
-                    Ok(count) => Token::Count(count),
-                    Err(_) => Token::Error,
+                    Ok(count) if count > 0 && digit != '0' => Token::Count(count),
+                    _ => Token::Error,
                 }
             }
             _ => Token::Error,
@@ -73,6 +75,8 @@ pub fn substance_from_formula(
     };
 
     let mut iter = TokenIterator::new(formula).peekable();
+    // no symbols at all is not a formula either
+    iter.peek()?;
     while let Some(token) = iter.next() {
         match token {
             Token::Symbol(ref sym) if symbols.contains_key(sym) => {
